@@ -88,9 +88,9 @@ def str_attr(I, v, name):
                 items = list(I.iterate(a[0]))
                 if all(isinstance(x, str) for x in items):
                     return v.join(items)
-                if any(not (isinstance(x, (str, FmtStr)) or (is_z3(x) and z3.is_string(x))) for x in items):
+                if any(not (isinstance(x, (str, FmtStr)) or (is_z3(x) and z3.is_string(x)) or getattr(x, 'is_text', False)) for x in items):
                     raise I.exc('TypeError', 'sequence item: expected str instance')
-                if any(isinstance(x, FmtStr) for x in items):
+                if any(isinstance(x, FmtStr) or getattr(x, 'is_text', False) for x in items):
                     return FmtStr([('join', v, items)])
                 out = None
                 for i, x in enumerate(items):
